@@ -152,6 +152,24 @@ def run(tier, seed):
                 rec.ok(("encoding-pointer", enc))
             else:
                 rec.fail(f"encoding-pointer:{enc}", f"json pointer -p /a/0/b -f <document encoded as {enc}>: exit {code}, stdout {out[:60]!r}, stderr {err[:200]!r}", "sys.exit(2)")
+        # documents (and a patch file) that are not decodable at all: bytes that are no valid UTF-8 / UTF-16 -
+        # "undecodable document": one line on stderr, exit 1, no traceback unless --debug
+        for name, raw in (("ff", b'"\xff"'), ("trunc", b'{"a": "\xe2\x82"}'), ("utf16odd", b"\xff\xfe[\x001")):
+            path = os.path.join(tmp, f"undecodable_{name}.json")
+            with open(path, "wb") as fd:
+                fd.write(raw)
+            for label, argv in (("path", ["path", "-q", "$", "-f", path]), ("pointer", ["pointer", "-p", "", "-f", path]), ("patch", ["patch", os.path.join(tmp, "patch0.json"), "-f", path]), ("patch-file", ["patch", path, "-f", good])):
+                code, out, err, tb = run_main(argv)
+                one_line = err.strip() != "" and err.strip().count("\n") == 0
+                if code == 1 and not tb and out == "" and one_line:
+                    rec.ok(("undecodable", name, label))
+                else:
+                    rec.fail(f"undecodable:{name}:{label}", f"json {' '.join(argv[:3])} ... on a file holding the bytes {raw!r}: exit {code}, traceback {tb}, stdout {out[:60]!r}, stderr {err[:200]!r}; an undecodable document is to be refused with one line on stderr and exit status 1", "sys.exit(2)")
+                code, out, err, tb = run_main(["--debug"] + argv)
+                if tb or code == 1:
+                    rec.ok(("undecodable-debug", name, label))
+                else:
+                    rec.fail(f"undecodable-debug:{name}:{label}", f"json --debug {' '.join(argv[:3])} on bytes {raw!r}: exit {code}, stdout {out[:60]!r}", "sys.exit(2)")
         # a document whose top-level value is a string that itself looks like JSON: decoded once, not twice
         strdoc = write("strdoc.json", json.dumps("[1, 2, 3]"))
         for q in ("$", "$[0]"):
